@@ -64,7 +64,7 @@ class Module:
                 child.parent = node
         self.tree.parent = None
         for node in ast.walk(self.tree):
-            node.module = self
+            node._mod = self
         for node in self.tree.body:
             if isinstance(node, ast.Import):
                 for a in node.names:
